@@ -10,8 +10,8 @@ use tinyvec::ArrayVec;
 use crate::{
     constants::{
         LmsLeafIdentifier, LmsTreeIdentifier, Node, MAX_ALLOWED_HSS_LEVELS,
-        MAX_NUM_WINTERNITZ_CHAINS, REF_IMPL_MAX_PRIVATE_KEY_SIZE, TREE_HEIGHTS,
-        WINTERNITZ_PARAMETERS,
+        MAX_NUM_WINTERNITZ_CHAINS, REF_IMPL_MAX_ALLOWED_HSS_LEVELS, REF_IMPL_MAX_PRIVATE_KEY_SIZE,
+        TREE_HEIGHTS, WINTERNITZ_PARAMETERS,
     },
     hasher::HashChain,
     hss::definitions::HssPrivateKey,
@@ -50,7 +50,7 @@ fn reference_key<H: HashChain>(
     }
     let mut blob: ArrayVec<[u8; REF_IMPL_MAX_PRIVATE_KEY_SIZE]> = ArrayVec::new();
     blob.extend_from_slice(&counter.to_be_bytes());
-    for level in 0..MAX_ALLOWED_HSS_LEVELS {
+    for level in 0..REF_IMPL_MAX_ALLOWED_HSS_LEVELS {
         match lms_types.get(level) {
             // Winternitz code 4 (W8); irrelevant for the counter arithmetic
             Some(lms_type) => blob.push(((*lms_type as u8) << 4) | 4),
